@@ -9,126 +9,292 @@ from ..core import Machinery
 
 LEVEL = "model_checking"
 ALPHABET = [0, 1, 2, 3, 4, 5, 6, 48, 49, 127, 128, 129, 130, 160, 255]
+BULK = ("acc", "oth", "encs", "backs", "der", "text", "pemtext", "wrapped", "hist")
 
 
 def _hex(b):
     return bytes(b).hex()
 
 
-def _judge(ctx, module, traces, family, on_clause):
-    """Validate `traces`; on_clause(trace, clause) is called for every trace that is not accepted."""
-    verdicts = ctx.validate(module, traces, family=family)
-    for t in traces:
-        pos, clause = verdicts[t["tid"]]
-        if clause != "ok":
-            on_clause(t, clause)
-    return verdicts
+def _slim(t):
+    return {k: v for k, v in t.items() if k not in ("acc", "oth", "encs", "backs", "hist")}
 
 
-def _selfcheck(ctx, module, good_trace, corrupt, family):
-    good = copy.deepcopy(good_trace)
-    bad = corrupt(copy.deepcopy(good_trace))
-    good["tid"] = 1
-    bad["tid"] = 2
-    v, st = tlc.validate_traces(module, [good, bad], shards=1)
-    ok = v[1][1] == "ok" and v[2][1] != "ok"
-    ctx.binding_checks.append({"family": family, "original": v[1][1][:80], "corrupted": v[2][1][:160], "ok": ok})
-    if not ok:
-        raise Machinery("binding self-check failed for %s: original=%r corrupted=%r" % (family, v[1], v[2]))
+class _SelfChecks(object):
+    """binding self-checks (DESIGN 4.4), judged in one TLC batch: every original must be accepted, every corrupted copy rejected"""
+
+    def __init__(self):
+        self.items = []
+
+    def add(self, good_trace, corrupt, family):
+        good = copy.deepcopy(good_trace)
+        bad = corrupt(copy.deepcopy(good_trace))
+        n = len(self.items)
+        good["tid"] = 2 * n + 1
+        bad["tid"] = 2 * n + 2
+        self.items.append((family, good, bad))
+
+    def run(self, ctx, module):
+        traces = [t for _, g, b in self.items for t in (g, b)]
+        v, st = tlc.validate_traces(module, traces, shards=8)
+        for family, g, b in self.items:
+            vg, vb = v[g["tid"]][1], v[b["tid"]][1]
+            ok = vg == "ok" and vb != "ok"
+            ctx.binding_checks.append({"family": family, "original": vg[:80], "corrupted": vb[:160], "ok": ok})
+            if not ok:
+                raise Machinery("binding self-check failed for %s: original=%r corrupted=%r" % (family, vg, vb))
+
+
+def _entry(t):
+    k = t["kind"]
+    if k in ("dec", "sweep"):
+        return t["d"]["cls"] + ".decode"
+    if k == "enc":
+        return t["d"]["cls"] + ".encode"
+    if k == "encints":
+        return "DerInteger.encode"
+    if k in ("unpad", "unpadsweep"):
+        return "Padding.unpad"
+    if k == "pad":
+        return "Padding.pad"
+    if k == "l2b":
+        return "number.long_to_bytes"
+    if k == "b2l":
+        return "number.bytes_to_long"
+    if k == "rfc1751":
+        return "RFC1751"
+    if k in ("key", "keysweep"):
+        return t["entry"]
+    if k == "wrap":
+        return "PKCS8.wrap"
+    if k == "pemenc":
+        return "PEM.encode"
+    return k
 
 
 def run(ctx):
     quick = ctx.tier == "quick"
     rnd = random.Random(ctx.seed)
+    maxlen = 4 if quick else 5
+    pool = ThreadPoolExecutor(max_workers=4)
+    # recorders that need nothing from the models start right away (they only drive the library and record)
+    f_misc = pool.submit(ctx.drive, "c13_codec", ["misc"], {"tid0": 3000000})
+    f_keys = pool.submit(ctx.drive, "c13_keys", ["mutants"], {"budget": 3000 if quick else 60000, "tid0": 5000000})
+    f_strs = pool.submit(ctx.drive, "c13_keys", ["strings"], {"alphabet": ALPHABET, "maxlen": 3 if quick else 4, "tid0": 7000000})
     # ---------------------------------------------------------------------------------------------------------
     # 1. the specification checks itself: every string up to the bound, every value of the universe
-    mcs = [("DerMC", "DerMC_quick.cfg" if quick else "DerMC_thorough.cfg", 16),
-           ("DerValueMC", "DerValueMC_ints_quick.cfg" if quick else "DerValueMC_ints.cfg", 16)]
-    res = {}
-    for m, cfg, w in mcs:
-        res[cfg] = ctx.mc(m, cfg, workers=w, timeout=1500)
+    r_der = ctx.mc("DerMC", "DerMC_quick.cfg" if quick else "DerMC_thorough.cfg", workers=8, timeout=1500)
+    decoders = json.loads(tlc.tla_string_to_py(r_der.prints("DECODERS")[0]))
+    f_sweep = pool.submit(ctx.drive, "c13_codec", ["sweep"], {"decoders": decoders, "alphabet": ALPHABET, "maxlen": maxlen, "tid0": 0})
     rv = ctx.mc("DerValueMC", "DerValueMC_values.cfg" if quick else "DerValueMC_values_big.cfg", workers=1, timeout=1500)
-    decoders = json.loads(tlc.tla_string_to_py(res[mcs[0][1]].prints("DECODERS")[0]))
     cases = [json.loads(tlc.tla_string_to_py(c)) for c in rv.prints("CASE")]
     if len(decoders) < 20 or len(cases) < 5000:
         raise Machinery("the models emitted %d decoder configurations and %d cases" % (len(decoders), len(cases)))
-    maxlen = 4 if quick else 5
+    rnd.shuffle(cases)
+    ncases = 2500 if quick else len(cases)
+    lo, hi = (-9000, 9000) if quick else (-70000, 70000)
+    f_enc = pool.submit(ctx.drive, "c13_codec", ["enc"], {"cases": cases[:ncases], "tid0": 1000000})
+    f_ints = pool.submit(ctx.drive, "c13_codec", ["encints"], {"lo": lo, "hi": hi, "chunk": 1000, "tid0": 2000000})
+    short = [c for c in cases if len(c["enc"]) <= 300]
+    f_mut = pool.submit(ctx.drive, "c13_codec", ["mutdec"], {"cases": short[:600 if quick else 5000], "per_case": 16 if quick else 30, "tid0": 10000000})
+    ctx.mc("DerValueMC", "DerValueMC_ints_quick.cfg" if quick else "DerValueMC_ints.cfg", workers=8, timeout=1500)
+    ctx.mc("PaddingMC", "PaddingMC_quick.cfg" if quick else "PaddingMC_thorough.cfg", workers=8, timeout=1500)
     ctx.exhaustive = True
 
     # ---------------------------------------------------------------------------------------------------------
-    # 2. low-level decoders and encoders against the specification
-    def der_clause(entry):
-        def f(t, clause):
-            if clause.startswith("harness:"):
-                raise Machinery("recorder inconsistency (%s): %s in %r" % (entry(t), clause, {k: t[k] for k in t if k not in ("acc", "oth", "encs", "backs")}))
-            ctx.violation("%s: %s" % (entry(t), clause),
-                          {"entry": entry(t), "config": t.get("d"), "input_hex": _hex(t["s"]) if "s" in t else None,
-                           "recorded": t.get("out"), "raised_in": t.get("fn")}, replay={k: t[k] for k in t if k not in ("acc", "oth")})
-        return f
+    # 2. code -> spec: every recorded outcome is judged by TLC
+    def report(t, clause, witness=None, n=None):
+        if clause.startswith("harness:"):
+            raise Machinery("recorder inconsistency (%s): %s in %r" % (_entry(t), clause, {k: v for k, v in _slim(t).items() if k not in BULK}))
+        entry = _entry(t)
+        if t["kind"] == "pemenc" and clause.startswith("rejected"):
+            entry = "PEM.decode"
+        detail = {"entry": entry, "kind": t["kind"], "recorded_outcome": t.get("out"), "raised_in": t.get("fn")}
+        for k in ("d", "style", "bs", "fmt", "mut", "mutd", "path", "armour", "pass", "where", "blocksize"):
+            if k in t:
+                detail[k] = t[k]
+        s = witness if witness is not None else t.get("s", t.get("der"))
+        if t.get("armour") == "text":
+            s = t.get("text", t.get("line", s))
+        if s is not None:
+            detail["input_hex"] = _hex(s)[:4000]
+        if n is not None:
+            detail["strings_in_this_class"] = n
+            detail["universe"] = {"alphabet": t["alphabet"], "maxlen": t["maxlen"], "prefix": t["prefix"]}
+        rep = _slim(t)
+        if witness is not None:
+            rep = {"kind": "dec" if t["kind"] == "sweep" else t["kind"], "s": witness, "d": t.get("d"), "entry": entry,
+                   "style": t.get("style"), "bs": t.get("bs"), "pass": t.get("pass")}
+        ctx.violation("%s: %s" % (entry, clause), detail, replay=rep)
 
-    # 2a. exhaustive sweep: the recorder enumerates the universe of DerMC, TLC judges every string
-    sw = ctx.drive("c13_codec", ["sweep"], inp={"decoders": decoders, "alphabet": ALPHABET, "maxlen": maxlen, "tid0": 0})
+    def judge(traces, family):
+        rnd.shuffle(traces)                        # spread the expensive records over the shards
+        verdicts = ctx.validate("CodecTrace", traces, family=family, timeout=3000)
+        for t in traces:
+            pos, clause = verdicts[t["tid"]]
+            if clause == "ok":
+                continue
+            if t["kind"] in ("sweep", "unpadsweep", "keysweep"):
+                for m in json.loads(clause):
+                    report(t, m["clause"], witness=m["s"], n=m["n"])
+            else:
+                report(t, clause)
+        return verdicts
+
+    # 2a. exhaustive universes: the recorders enumerated the universes of DerMC / PaddingMC (and the same strings into the
+    #     high-level entry points); TLC enumerates them again and judges every string
+    sw = f_sweep.result()
+    misc = f_misc.result()
+    strs = f_strs.result()
+    usw = [t for t in misc if t["kind"] == "unpadsweep"]
+    misc = [t for t in misc if t["kind"] != "unpadsweep"]
+    judge(sw + usw + strs, "exhaustive-universes")
     nstr = sum(t["n"] for t in sw)
-    ctx.count(nstr)
-    verdicts = ctx.validate("CodecTrace", sw, family="der-sweep")
-    sweep_accepted = 0
+    ctx.count(nstr + sum(t["n"] for t in usw) + sum(t["n"] for t in strs))
+    accepted = 0
     for t in sw:
-        sweep_accepted += len(t["acc"])
+        accepted += len(t["acc"])
         for a in t["acc"]:
             ctx.nontriv([t["d"], a["s"]])
-        pos, clause = verdicts[t["tid"]]
-        if clause == "ok":
-            continue
-        for m in json.loads(clause):
-            if m["clause"].startswith("harness:"):
-                raise Machinery("recorder inconsistency in the sweep of %r: %s (%s)" % (t["d"], m["clause"], _hex(m["s"])))
-            ctx.violation("%s.decode: %s" % (t["d"]["cls"], m["clause"]),
-                          {"entry": t["d"]["cls"] + ".decode", "config": t["d"], "input_hex": _hex(m["s"]),
-                           "strings_in_this_class": m["n"], "universe": {"alphabet": ALPHABET, "maxlen": t["maxlen"], "prefix": t["prefix"]}},
-                          replay={"kind": "dec", "d": t["d"], "s": m["s"]})
-    ctx.extra["sweep"] = {"strings_per_decoder": nstr // len(decoders), "decoder_configurations": len(decoders),
-                          "decoder_calls": nstr, "accepted": sweep_accepted, "alphabet": ALPHABET, "maxlen": maxlen}
-    # a small universe without the octet 0x80 (F1) for the sample and the binding self-check
-    sc = ctx.drive("c13_codec", ["sweep"], inp={"decoders": [d for d in decoders if d["cls"] == "DerBoolean" and d["exp"] < 0],
-                                                 "alphabet": [0, 1, 2, 127, 129, 255], "maxlen": 4, "tid0": 900000})
-    vsc = ctx.validate("CodecTrace", sc, family="der-sweep")
-    ok_sweep = next(t for t in sc if vsc[t["tid"]][1] == "ok" and len(t["acc"]) >= 2)
-    ctx.sample({"family": "der-sweep", "decoder": ok_sweep["d"], "prefix": ok_sweep["prefix"], "strings": ok_sweep["n"],
-                "accepted": [_hex(a["s"]) for a in ok_sweep["acc"][:6]], "tlc_verdict": "ok"})
-
-    # 2b. encoders on the value universe TLC enumerated; the library's decoding of its own encodings
-    rnd.shuffle(cases)
-    ncases = 2500 if quick else len(cases)
-    en = ctx.drive("c13_codec", ["enc"], inp={"cases": cases[:ncases], "tid0": 1000000})
-    lo, hi = (-9000, 9000) if quick else (-70000, 70000)
-    en += ctx.drive("c13_codec", ["encints"], inp={"lo": lo, "hi": hi, "chunk": 1000, "tid0": 2000000})
-    _judge(ctx, "CodecTrace", en, "der-encode", der_clause(lambda t: t["d"]["cls"] + ".encode" if "d" in t else "DerInteger.encode"))
-    for t in en:
-        if t["kind"] == "enc":
-            ctx.count()
-            ctx.nontriv(["enc", t["d"], t["v"]])
-        else:
+    for t in usw:
+        for a in t["acc"]:
+            ctx.nontriv(["unpad", t["style"], t["bs"], a["s"]])
+    ctx.extra["der_sweep"] = {"strings_per_decoder": nstr // len(decoders), "decoder_configurations": len(decoders),
+                              "decoder_calls": nstr, "accepted": accepted, "alphabet": ALPHABET, "maxlen": maxlen}
+    ctx.extra["unpad_sweep"] = {"calls": sum(t["n"] for t in usw), "accepted": sum(len(t["acc"]) for t in usw),
+                                "alphabet": usw[0]["alphabet"], "maxlen": max(t["maxlen"] for t in usw), "block_sizes": [1, 2, 3, 4, 5]}
+    # 2b. recorded calls: encoders on the value universe TLC enumerated, decoders on grammar-aware mutations of those encodings;
+    #     padding, integer conversion, RFC 1751, PEM.encode, PKCS8.wrap; key files (mutated exports, OpenSSH, PEM texts, PBES)
+    low = f_enc.result() + f_ints.result() + f_mut.result()
+    keys = f_keys.result()
+    v_all = judge(low + misc + keys, "recorded-calls")
+    v_low = v_misc = v_keys = v_all
+    n_mut = 0
+    for t in low:
+        if t["kind"] == "encints":
             ctx.count(t["hi"] - t["lo"] + 1)
             ctx.nontriv(["encints", t["lo"], t["hi"]])
-    ctx.extra["encoder_cases"] = {"composite_values": sum(1 for t in en if t["kind"] == "enc"), "integers": [lo, hi]}
-    e0 = next(t for t in en if t["kind"] == "enc" and t["d"]["cls"] == "DerSequence" and len(t["v"]["m"]) == 3)
-    ctx.sample({"family": "der-encode", "decoder": e0["d"], "value": e0["v"], "encoding": _hex(e0["enc"]), "tlc_verdict": "ok"})
+        else:
+            ctx.count()
+            n_mut += t["kind"] == "dec"
+            if t["out"] == "ok":
+                ctx.nontriv([t["kind"], t["d"], t.get("v"), t.get("s")])
+    ctx.extra["der_values"] = {"composite_values_encoded": sum(1 for t in low if t["kind"] == "enc"), "integers_encoded": [lo, hi],
+                               "mutated_encodings_decoded": n_mut}
+    kinds = {}
+    for t in misc:
+        ctx.count()
+        kinds[t["kind"]] = kinds.get(t["kind"], 0) + 1
+        if t.get("out") == "ok":
+            ctx.nontriv([t["kind"], {k: v for k, v in t.items() if k not in ("tid",)}])
+    ctx.extra["misc_calls"] = kinds
+    per_entry = {}
+    for t in keys:
+        ctx.count()
+        e = per_entry.setdefault(t["entry"], {"calls": 0, "accepted": 0, "short_strings": 0})
+        e["calls"] += 1
+        if t["out"] == "ok":
+            e["accepted"] += 1
+            ctx.nontriv([t["entry"], t.get("der"), t.get("text"), t.get("line"), t["pass"]])
+    for t in strs:
+        per_entry.setdefault(t["entry"], {"calls": 0, "accepted": 0, "short_strings": 0})["short_strings"] += t["n"]
+    ctx.extra["key_file_calls"] = per_entry
+    ctx.extra["key_file_mutation_classes"] = len(set(t["mut"] for t in keys))
 
     # ---------------------------------------------------------------------------------------------------------
-    # binding self-checks: a falsified outcome must be rejected by the judge
+    # samples
+    def first(ts, vs, pred):
+        return next((t for t in ts if vs[t["tid"]][1] == "ok" and pred(t)), None)
+    e0 = first(low, v_low, lambda t: t["kind"] == "enc" and t["d"]["cls"] == "DerSequence" and len(t["v"]["m"]) == 3)
+    d0 = first(low, v_low, lambda t: t["kind"] == "dec" and t["out"] == "ValueError" and t["mut"] == "len-nonminimal")
+    d1 = first(low, v_low, lambda t: t["kind"] == "dec" and t["out"] == "ok" and t["mut"] not in ("unmodified",))
+    u0 = first(misc, v_misc, lambda t: t["kind"] == "unpad" and t["out"] == "ok" and t["bs"] == 16 and len(t["v"]) > 2)
+    u1 = first(misc, v_misc, lambda t: t["kind"] == "unpad" and t["out"] == "ValueError" and t["bs"] == 16)
+    p0 = first(misc, v_misc, lambda t: t["kind"] == "pemenc" and not t["enc"] and len(t["data"]) > 48)
+    w0 = first(misc, v_misc, lambda t: t["kind"] == "wrap" and not t["enc"] and t["params"]["k"] == "null" and len(t["key"]) > 4)
+    k0 = first(keys, v_keys, lambda t: t["entry"] == "PKCS8.unwrap" and not t["pass"] and t["out"] == "ok" and t["mut"] == "unmodified")
+    k1 = first(keys, v_keys, lambda t: t["entry"] == "RSA.import_key" and t["mut"] == "len-nonminimal" and t["strictable"] and t["out"] == "ValueError")
+    k2 = first(keys, v_keys, lambda t: t["entry"] == "PEM.decode" and t["out"] == "ok" and t["mut"] == "pem-valid")
+    for name, t in (("enc", e0), ("dec-rejected", d0), ("dec-accepted", d1), ("unpad-ok", u0), ("unpad-rejected", u1), ("pemenc", p0),
+                    ("wrap", w0), ("unwrap", k0), ("key-strict", k1), ("pem-decode", k2)):
+        if t is None:
+            raise Machinery("no accepted sample trace of family %s" % name)
+    ctx.sample({"family": "der-encode", "decoder": e0["d"], "value": e0["v"], "encoding": _hex(e0["enc"]), "tlc_verdict": "ok"}, cap=12)
+    ctx.sample({"family": "der-decode", "decoder": d0["d"], "mutation": d0["mut"], "input": _hex(d0["s"]), "real_outcome": d0["out"], "tlc_verdict": "ok"}, cap=12)
+    ctx.sample({"family": "der-decode", "decoder": d1["d"], "mutation": d1["mut"], "input": _hex(d1["s"]), "real_outcome": d1["out"], "value": d1["v"], "tlc_verdict": "ok"}, cap=12)
+    ctx.sample({"family": "unpad", "style": u1["style"], "block_size": 16, "input": _hex(u1["s"]), "real_outcome": u1["out"], "tlc_verdict": "ok"}, cap=12)
+    ctx.sample({"family": "key-file", "entry": k1["entry"], "format": k1["fmt"], "mutation": k1["mut"], "path": k1["path"],
+                "real_outcome": k1["out"], "tlc_verdict": "ok"}, cap=12)
+    ctx.sample({"family": "key-file", "entry": k0["entry"], "format": k0["fmt"], "mutation": k0["mut"], "real_outcome": k0["out"],
+                "oid_arcs": k0["v"]["arcs"], "tlc_verdict": "ok"}, cap=12)
+
+    # ---------------------------------------------------------------------------------------------------------
+    # 3. binding self-checks: a falsified record must be rejected by the judge
+    # a small universe without the octet 0x80 (F1) so that the unmodified record is accepted on the unfixed tree too
+    sc = ctx.drive("c13_codec", ["sweep"], inp={"decoders": [d for d in decoders if d["cls"] == "DerBoolean" and d["exp"] < 0],
+                                                 "alphabet": [0, 1, 2, 127, 129, 255], "maxlen": 4, "tid0": 900000})
+    vsc, _ = tlc.validate_traces("CodecTrace", sc, shards=2)
+    ok_sweep = next(t for t in sc if vsc[t["tid"]][1] == "ok" and len(t["acc"]) >= 2)
+
     def drop_accepted(t):
         del t["acc"][0]
         return t
-    _selfcheck(ctx, "CodecTrace", ok_sweep, drop_accepted, "der-sweep: an accepted string reported as ValueError")
 
     def flip_value(t):
         t["acc"][0]["v"]["b"] = not t["acc"][0]["v"]["b"]
         return t
-    _selfcheck(ctx, "CodecTrace", ok_sweep, flip_value, "der-sweep: decoded value")
 
-    def flip_enc(t):
-        t["enc"][-1] ^= 1
+    def add_other(t):
+        t["oth"].append({"s": t["acc"][0]["s"][:2], "exc": "IndexError", "fn": "asn1._decodeLen"})
         return t
-    _selfcheck(ctx, "CodecTrace", e0, flip_enc, "der-encode: one bit of the encoding")
-    ctx.rule = ("every byte string of length <= %d over the 15-octet alphabet into %d decoder configurations" % (maxlen, len(decoders)))
-    ctx.assume("the transcription of X.690 in spec/obj/DerDecoder.tla is right; it is pinned by X.690 8.19.5 and OpenSSL-produced encodings as ASSUMEs")
+
+    def set_(**kw):
+        def f(t):
+            t.update(kw)
+            return t
+        return f
+
+    def flip_last(field):
+        def f(t):
+            t[field][-1] ^= 1
+            return t
+        return f
+    sc_ = _SelfChecks()
+    sc_.add(ok_sweep, drop_accepted, "der-sweep: an accepted string reported as ValueError")
+    sc_.add(ok_sweep, flip_value, "der-sweep: decoded value")
+    sc_.add(ok_sweep, add_other, "der-sweep: an undocumented exception class")
+    sc_.add(e0, flip_last("enc"), "der-encode: one bit of the encoding")
+    sc_.add(d0, set_(out="ok", v={"m": []}), "der-decode: rejected -> accepted")
+    sc_.add(d1, set_(out="ValueError", v=0), "der-decode: accepted -> ValueError")
+    sc_.add(d1, set_(out="TypeError", v=0, fn="asn1.decode"), "der-decode: exception class")
+    sc_.add(u0, flip_last("v"), "unpad: one bit of the data")
+    sc_.add(u1, set_(out="ok", v=[]), "unpad: rejected -> accepted")
+    sc_.add(p0, flip_last("text"), "pem-encode: one character of the armour")
+    sc_.add(w0, flip_last("wrapped"), "pkcs8-wrap: one bit of the container")
+    sc_.add(k0, lambda t: dict(t, v=dict(t["v"], key=t["v"]["key"][:-1])), "pkcs8-unwrap: returned key")
+    sc_.add(k1, set_(out="ok", v={"type": "RsaKey", "private": True}), "key-file: non-minimal length -> accepted")
+    sc_.add(k1, set_(out="KeyError", fn="RSA.import_key"), "key-file: exception class")
+    sc_.add(k1, set_(kdf=1), "key-file: key derivation without passphrase")
+    sc_.add(k2, set_(out="ValueError", v=0), "pem-decode: canonical block rejected")
+    sc_.run(ctx, "CodecTrace")
+    pool.shutdown()
+    ctx.rule = ("(i) every byte string of length <= %d over the 15-octet alphabet {00..06,30,31,7f,80,81,82,a0,ff} into %d configurations "
+                "of the nine Der* classes (strict on/off, IMPLICIT/EXPLICIT tags, nr_elements, only_ints_expected); every string of length "
+                "<= %d over {00..04,80,ff} into unpad for three styles and block sizes 1..5; every string of length <= %d over the 15-octet "
+                "alphabet into RSA/DSA/ECC.import_key and PKCS8.unwrap with and without passphrase; (ii) the value universe of "
+                "spec/mc/DerValueMC (TLC-enumerated) through the real encoders, integers %d..%d, grammar-aware mutations (length forms, "
+                "identifier octets, content, drop/duplicate/replace an element) of those encodings and of real exported RSA/DSA/ECC keys "
+                "in every format (PKCS#1, PKCS#8 clear and PBES2, SPKI, X.509-shaped, RFC 5915, PEM, OpenSSH public and private) into "
+                "the decoders; padding at real block sizes, long_to_bytes/bytes_to_long, RFC 1751, PEM.encode and PKCS8.wrap round trips; "
+                "distinct_nontrivial = distinct accepted (decoder, input) pairs"
+                % (maxlen, len(decoders), 5 if quick else 6, 3 if quick else 4, lo, hi))
+    ctx.assume("the transcriptions in spec/obj/DerDecoder*.tla and spec/data/{Padding,PemCodec}.tla are right; they are pinned by X.690 8.19.5, "
+               "RFC 4648 section 10 and encodings produced with OpenSSL 3.5 as ASSUMEs, and by the grammar/parser and definition/one-pass "
+               "equivalences checked exhaustively in spec/mc/DerMC and spec/mc/PaddingMC")
+    ctx.assume("named tolerances (DerDecoder.tla): single-octet identifiers, non-strict INTEGER without content or with redundant leading "
+               "octets, redundant 0xff octets also in strict mode, NULL with content, BIT STRING without initial octet, OBJECT IDENTIFIER with a "
+               "dangling continuation octet or a padded arc, unordered SET OF: there the judge accepts the value or ValueError")
+    ctx.assume("'in time bounded by the input size' is not observed; only the absence of a password-based key derivation on the "
+               "no-passphrase path is. PBES/PEM decryption is judged by round trip and structure, not recomputed. RFC 1751 is an "
+               "uninterpreted bijection. import_key return values are judged for totality and strictness only (their equality with the "
+               "exported key is C08)")
